@@ -331,3 +331,39 @@ func pinParamName(prm *ssa.Parameter) string {
 	}
 	return prm.Name()
 }
+
+var (
+	pinnedFuncsOnce sync.Once
+	pinnedFuncs     map[string]bool
+)
+
+// knownOnPinnedTree: the function or method exists on the pinned tree (possibly under another name).
+func knownOnPinnedTree(fn *ssa.Function) bool {
+	pinnedFuncsOnce.Do(func() {
+		pinnedFuncs = map[string]bool{}
+		for _, e := range loadPinnedSymtab() {
+			if e.Kind == "func" || e.Kind == "method" {
+				pinnedFuncs[e.key()] = true
+			}
+		}
+	})
+	if len(pinnedFuncs) == 0 {
+		return true
+	}
+	root := fn
+	for root.Parent() != nil {
+		root = root.Parent()
+	}
+	if o := root.Origin(); o != nil {
+		root = o
+	}
+	pk := fnTypesPkg(root)
+	if pk == nil {
+		return true
+	}
+	key := "func|" + pk.Path() + "||" + pinName(root)
+	if _, tn := recvTypeName(root); tn != "" {
+		key = "method|" + pk.Path() + "|" + tn + "|" + pinName(root)
+	}
+	return pinnedFuncs[key]
+}
